@@ -319,6 +319,7 @@ theorem resolve_gate (cfg : Cfg) (env : Env) (flt : Faults) :
         · simp only []; rw [finish_st]; simpa [R.st] using hp
         · simp only [cleanup]
           exact allEv_log (by simpa [R.st] using hp) (by simp [GateEv])
-      · simpa [R.st] using ha
+      · simp only [cleanup]
+        exact allEv_log (by simpa [R.st] using ha) (by simp [GateEv])
 
 end MesonModel.DepPolicy.Wrap
